@@ -62,12 +62,19 @@ func init() {
 					{"empty-value", []byte("ev"), []byte{}, true},
 					{"nil-value", []byte("nv"), nil, true},
 				}
+				if c.inmem {
+					// in memory the value limit is the value threshold (32 bytes here): a short value over
+					// it must be refused with an error like any other
+					cases = append(cases, tc{"inmem-value-at-limit", []byte("ml"), bytes.Repeat([]byte("V"), vlimit), true},
+						tc{"inmem-value-over-limit", []byte("mo"), bytes.Repeat([]byte("V"), vlimit+1), false})
+				}
 				if !c.inmem {
 					cases = append(cases, tc{"value-at-limit", []byte("big"), bytes.Repeat([]byte("V"), vlimit), true},
 						tc{"value-over-limit", []byte("big2"), bytes.Repeat([]byte("V"), vlimit+1), false})
 				}
 				if c.nsOffset >= 0 {
 					cases = append(cases,
+						tc{"banned-ns-exact", bannedKey(0), []byte("v"), false}, // the namespace is the key's last 8 bytes
 						tc{"banned-ns-long", bannedKey(1), []byte("v"), false},
 						tc{"banned-ns-longer", bannedKey(5), []byte("v"), false},
 						tc{"short-of-namespace", bannedKey(0)[:c.nsOffset+7], []byte("v"), true},
@@ -89,7 +96,7 @@ func init() {
 						// a key exactly filling the namespace window (len == offset+8) is not inspected
 						if (err == nil) != t.ok {
 							txn.Discard()
-							if del && t.name == "value-over-limit" {
+							if del && strings.HasSuffix(t.name, "value-over-limit") {
 								continue // Delete carries no value
 							}
 							return "validation", fmt.Sprintf("%s/%s del=%v: error %v, expected accepted=%v", c.name, t.name, del, err, t.ok)
@@ -125,6 +132,22 @@ func init() {
 								if !bytes.Equal(v, t.val) && !(len(v) == 0 && len(t.val) == 0) {
 									rt.Discard()
 									return "validation-roundtrip", fmt.Sprintf("%s/%s: value len %d, wrote %d", c.name, t.name, len(v), len(t.val))
+								}
+								// an accepted key that Get returns must be returned by an iterator as well
+								seen := false
+								io := DefaultIteratorOptions
+								io.PrefetchValues = false
+								iter := rt.NewIterator(io)
+								for iter.Seek(t.key); iter.Valid(); iter.Next() {
+									if bytes.Equal(iter.Item().Key(), t.key) {
+										seen = true
+									}
+									break
+								}
+								iter.Close()
+								if !seen {
+									rt.Discard()
+									return "validation-iterator", fmt.Sprintf("%s/%s: the key was accepted and Get returns it, an iterator does not", c.name, t.name)
 								}
 							}
 						}
